@@ -674,3 +674,32 @@ V('c10-enum-names-shallow', 'C10', 'C10.R2',
    "        return_paths = [path for path in instance_store.iter_names()\n                        if path.classname in clns]\n"), 'shallow-name-returned')
 V('c02-split-index', 'C02', 'C02.R1',
   ('pywbem/_cim_http.py', "            server_auths = [sa.split(' ')[0] for sa in server_auths]", "            server_auths = [sa.split()[0] for sa in server_auths]"), 'IndexError')
+
+# ---- element-node linearity (C01.R10 / C04.R7) -----------------------------
+V('c04-null-node-hoisted', 'C04', 'C04.R7',
+  ('pywbem/_cim_obj.py', "                array_xml = []\n                for v in self.value:\n                    if v is None:\n                        if SEND_VALUE_NULL:\n                            array_xml.append(_cim_xml.VALUE_NULL())\n                        else:\n                            array_xml.append(_cim_xml.VALUE(None))\n                    elif self.embedded_object is not None:",
+   "                null_xml = _cim_xml.VALUE_NULL() if SEND_VALUE_NULL else _cim_xml.VALUE(None)\n                array_xml = []\n                for v in self.value:\n                    if v is None:\n                        array_xml.append(null_xml)\n                    elif self.embedded_object is not None:"),
+  'node-reused-in-loop')
+V('c01-node-twice', 'C01', 'C01.R10',
+  ('pywbem/_cim_obj.py', "        if self.path.namespace is None:\n            return _cim_xml.VALUE_NAMEDINSTANCE(\n                self.path.tocimxml(),\n                instance_xml)",
+   "        if self.path.namespace is None:\n            _ = _cim_xml.VALUE_OBJECT(instance_xml)\n            return _cim_xml.VALUE_NAMEDINSTANCE(\n                self.path.tocimxml(),\n                instance_xml)"),
+  'node-consumed-twice')
+
+# ---- C08.R7 / C06.R6b / C06.R8 ----------------------------------------------
+V('c08-null-keeps-default', 'C08', 'C08.R7',
+  ('pywbem/_mof_compiler.py', "                pprop.value = cimvalue(pval, cprop.type)\n            inst.properties[pname] = pprop", "                    pprop.value = cimvalue(pval, cprop.type)\n            inst.properties[pname] = pprop"), 'default-kept')
+V('c08-embedded-null-keeps-default', 'C08', 'C08.R7',
+  ('pywbem/_mof_compiler.py', "                else:\n                    # NULL in the instance overrides a default value of the\n                    # property in the class\n                    pprop.value = None\n", ""), 'default-kept')
+V('c06-exp-separator', 'C06', 'C06.R6',
+  ('pywbem/_cim_types.py', "        s = f'{obj:.11G}'\n        if s == 'NAN':\n            s = 'NaN'\n        elif s in ('INF', '-INF'):\n            pass\n        elif '.' not in s:\n            parts = s.split('E')\n            parts[0] = parts[0] + '.0'\n            s = 'E'.join(parts)",
+   "        s = f'{obj:.11G}'\n        if s == 'NAN':\n            s = 'NaN'\n        elif s in ('INF', '-INF'):\n            pass\n        elif '.' not in s:\n            mantissa, sep, exponent = s.partition('E+')\n            s = f'{mantissa}.0{sep}{exponent}'"), 'exponent-separator')
+V('c06-interval-float-seconds', 'C06', 'C06.R8',
+  ('pywbem/_cim_types.py', "            days = self.timedelta.days\n            hours = self.timedelta.seconds // 3600\n            sec_in_hour = self.timedelta.seconds - hours * 3600\n            minutes = sec_in_hour // 60\n            seconds = sec_in_hour - minutes * 60\n",
+   "            total_secs = int(self.timedelta.total_seconds())\n            days, sec_in_day = divmod(total_secs, 86400)\n            hours, sec_in_hour = divmod(sec_in_day, 3600)\n            minutes, seconds = divmod(sec_in_hour, 60)\n"), 'float-path')
+
+# ---- C09.R6b / C18.R2c -------------------------------------------------------
+V('c09-restore-only-scalar', 'C09', 'C09.R6',
+  ('pywbem/_mof_compiler.py', "                _ = self.parser.parse(mof, lexer=lexer)\n\n            self.parser.file = oldfile\n            self.parser.mof = oldmof\n            return self.parser.embedded_objects",
+   "                _ = self.parser.parse(mof, lexer=lexer)\n                self.parser.file = oldfile\n                self.parser.mof = oldmof\n            return self.parser.embedded_objects"), 'not-restored')
+V('c18-reuse-foreign-destination', 'C18', 'C18.R2',
+  ('pywbem/_subscription_manager.py', "            for inst in self._owned_destinations[server_id]:\n                if inst['Destination'] == dest_inst['Destination'] and \\", "            for inst in existing_dest_insts:\n                if inst['Destination'] == dest_inst['Destination'] and \\"), 'foreign-instance-returned')
